@@ -47,9 +47,17 @@ type ProcCase struct {
 	Extra     int        `json:"extra_files,omitempty"`
 	Relation  string     `json:"relation,omitempty"` // "" | f-vs-inline | stdin-vs-file | r-vs-beginfile
 	Strace    *StraceInj `json:"strace,omitempty"`
+	// StdinMode: what is behind descriptor 0: "" a regular file at offset 0,
+	// "offset" a regular file of which an earlier reader has consumed a leading
+	// line (the input is what follows the offset), "pipe" a pipe
+	StdinMode string `json:"stdin_mode,omitempty"`
 
 	fifos []fifoFeed
 }
+
+const stdinHeader = "#! a leading line that an earlier reader of the same open file has consumed\n"
+
+var procfsInputs = []string{"/proc/sys/kernel/pid_max", "/proc/sys/kernel/ngroups_max", "/proc/sys/kernel/threads-max"}
 
 // StraceInj: ptrace-level fault injection (strace -e inject=...) restricted to
 // one path with -P: fail the When-th read/openat of an input file, or the
@@ -157,7 +165,7 @@ func (c *ProcCase) setup(dir string, variant string) (args []string, stdinPath s
 			if err = os.MkdirAll(filepath.Join(dir, in.Name), 0o755); err != nil {
 				return
 			}
-		case "procmem":
+		case "procmem", "procfs":
 		case "fifo":
 			// a named pipe: a size-0, non-seekable named input whose bytes
 			// arrive only once the binary has opened it
@@ -186,6 +194,9 @@ func (c *ProcCase) setup(dir string, variant string) (args []string, stdinPath s
 		os.WriteFile(filepath.Join(dir, fmt.Sprintf("unrelated%d.json", i)), []byte("[99]"), 0o644)
 	}
 	stdinPath = filepath.Join(dir, ".stdin")
+	if c.StdinMode == "offset" {
+		stdin = append([]byte(stdinHeader), stdin...)
+	}
 	err = os.WriteFile(stdinPath, stdin, 0o644)
 	return
 }
@@ -225,6 +236,16 @@ func runBinary(c *ProcCase, variant string) (res procResult, trouble error) {
 	cmd := exec.Command(bin, argv...)
 	cmd.Dir = dir
 	cmd.Stdin = stdin
+	switch c.StdinMode {
+	case "offset":
+		if _, err := stdin.Seek(int64(len(stdinHeader)), io.SeekStart); err != nil {
+			return res, err
+		}
+	case "pipe":
+		if data, err := os.ReadFile(stdinPath); err == nil {
+			cmd.Stdin = bytes.NewReader(data)
+		}
+	}
 	cmd.Stdout = so
 	cmd.Stderr = se
 	cmd.Env = append([]string{"PATH=/usr/bin:/bin", "HOME=" + dir}, c.Env...)
@@ -369,6 +390,10 @@ func libOracle(c *ProcCase, variant string) libResult {
 			files = append(files, lang.InputFile{Name: "/proc/self/mem", Reader: failingReader{&fs.PathError{Op: "read", Path: name, Err: syscall.EIO}}})
 		case "missing":
 			files = append(files, lang.InputFile{Name: name, Reader: failingReader{&fs.PathError{Op: "open", Path: name, Err: syscall.ENOENT}}})
+		case "procfs":
+			// a kernel-provided file outside the scratch directory: stat size 0, content read now
+			data, _ := os.ReadFile(name)
+			files = append(files, lang.InputFile{Name: name, Reader: bytes.NewReader(data)})
 		default:
 			files = append(files, lang.InputFile{Name: name, Reader: bytes.NewReader(in.Data)})
 		}
@@ -673,9 +698,16 @@ func genProcCase(t *Tape, c01only bool) *ProcCase {
 			c.Selectors = append(c.Selectors, procSelectors[t.Draw(len(procSelectors))])
 		}
 	}
-	// a named input may be a pipe rather than a regular file
+	// a named input may be a pipe rather than a regular file, or a kernel-provided file
 	if len(c.Inputs) > 0 && t.Chance(1, 6) {
 		c.Inputs[t.Draw(len(c.Inputs))].Kind = "fifo"
+	}
+	if len(c.Inputs) > 0 && t.Chance(1, 12) {
+		i := t.Draw(len(c.Inputs))
+		c.Inputs[i] = ProcFile{Name: procfsInputs[t.Draw(len(procfsInputs))], Kind: "procfs"}
+	}
+	if len(c.Inputs) == 0 {
+		c.StdinMode = []string{"", "", "offset", "pipe"}[t.Draw(4)]
 	}
 	// -o
 	c.OMode = []string{"", "", "-", "file", "existing"}[t.Draw(5)]
@@ -688,15 +720,21 @@ func genProcCase(t *Tape, c01only bool) *ProcCase {
 		switch fk {
 		case 0:
 			if len(c.Inputs) > 0 {
-				c.Inputs[t.Draw(len(c.Inputs))].Kind = "missing"
+				if i := t.Draw(len(c.Inputs)); c.Inputs[i].Kind != "procfs" {
+					c.Inputs[i].Kind = "missing"
+				}
 			}
 		case 1:
 			if len(c.Inputs) > 0 {
-				c.Inputs[t.Draw(len(c.Inputs))].Kind = "dir"
+				if i := t.Draw(len(c.Inputs)); c.Inputs[i].Kind != "procfs" {
+					c.Inputs[i].Kind = "dir"
+				}
 			}
 		case 2:
 			if len(c.Inputs) > 0 {
-				c.Inputs[t.Draw(len(c.Inputs))].Kind = "procmem"
+				if i := t.Draw(len(c.Inputs)); c.Inputs[i].Kind != "procfs" {
+					c.Inputs[i].Kind = "procmem"
+				}
 			}
 		case 3:
 			c.ViaF, c.FMissing = true, true
@@ -829,6 +867,9 @@ func genProcStreamCase(t *Tape) *ProcCase {
 		if t.Chance(1, 5) {
 			c.Inputs[i].Kind = "fifo"
 		}
+	}
+	if len(c.Inputs) == 0 {
+		c.StdinMode = []string{"", "offset", "pipe"}[t.Draw(3)]
 	}
 	return c
 }
